@@ -4,7 +4,8 @@
 set -eu
 D="$1"; ROOT="$(cd "$(dirname "$0")/.." && pwd)"
 mkdir -p "$D/repo"
-rsync -a --delete --exclude .git --exclude examples --exclude cmd /repo/ "$D/repo/"
+REPO="${VERIF_REPO:-/repo}"
+rsync -a --delete --exclude .git --exclude examples --exclude cmd "$REPO/" "$D/repo/"
 mkdir -p "$D/repo/lockmon"
 cp "$ROOT/harness/lockmon/lockmon.go" "$D/repo/lockmon/lockmon.go"
 N=0
